@@ -706,10 +706,11 @@ impl Transport {
             .rx
             .with(|packet| {
                 matter.with_state(|state| {
-                    let session = state
-                        .sessions
-                        .get_for_rx(&packet.peer, &packet.header.plain)?;
-                    let exch_index = session.get_exch_for_rx(&packet.header.proto)?;
+                    let (session, exch_index) = state.sessions.get_exch_for_rx(
+                        &packet.peer,
+                        &packet.header.plain,
+                        &packet.header.proto,
+                    )?;
 
                     let matches = {
                         // `unwrap` is safe because the transport code is single threaded, and since we don't `await`
@@ -1805,14 +1806,11 @@ impl<'a, C: Crypto> TransportRunner<'a, C> {
         }
 
         self.matter.with_state(|state| {
-            let Some(session) = state
-                .sessions
-                .get_for_rx(&packet.peer, &packet.header.plain)
-            else {
-                return false;
-            };
-
-            let Some(exch_index) = session.get_exch_for_rx(&packet.header.proto) else {
+            let Some((session, exch_index)) = state.sessions.get_exch_for_rx(
+                &packet.peer,
+                &packet.header.plain,
+                &packet.header.proto,
+            ) else {
                 return false;
             };
 
@@ -1846,18 +1844,12 @@ impl<'a, C: Crypto> TransportRunner<'a, C> {
         }
 
         self.matter.with_state(|state| {
-            let Some(session) = state
-                .sessions
-                .get_for_rx(&packet.peer, &packet.header.plain)
-            else {
-                mrp_log!("\n>>RCV {}\n => No session, dropping", packet);
-
-                packet.buf.clear();
-                return true;
-            };
-
-            let Some(exch_index) = session.get_exch_for_rx(&packet.header.proto) else {
-                mrp_log!("\n>>RCV {}\n => No exchange, dropping", packet);
+            let Some((session, exch_index)) = state.sessions.get_exch_for_rx(
+                &packet.peer,
+                &packet.header.plain,
+                &packet.header.proto,
+            ) else {
+                mrp_log!("\n>>RCV {}\n => No session or exchange, dropping", packet);
 
                 packet.buf.clear();
                 return true;
@@ -1974,10 +1966,24 @@ impl<'a, C: Crypto> TransportRunner<'a, C> {
                 packet.buf.truncate(end);
             };
 
-            if let Some(session) = state
-                .sessions
-                .get_for_rx(&packet.peer, &packet.header.plain)
-            {
+            // A group DATA message never re-uses an existing session: each one has to pass
+            // the per-sender group counter window and gets its own ephemeral RX group session
+            // (see `Sessions::get_or_create_for_group_rx`), keyed for the group it is addressed to.
+            #[cfg(feature = "groups")]
+            let new_group_session =
+                packet.header.plain.is_group_session() && !packet.header.plain.is_control_msg();
+            #[cfg(not(feature = "groups"))]
+            let new_group_session = false;
+
+            let session = if new_group_session {
+                None
+            } else {
+                state
+                    .sessions
+                    .get_for_rx(&packet.peer, &packet.header.plain)
+            };
+
+            if let Some(session) = session {
                 // Found existing session: decode, indicate packet payload slice and process further
 
                 let payload_range =
